@@ -62,50 +62,62 @@ pub fn exec(sc: &Scenario, st: &mut Stats) -> Option<Violation> {
     let mut restored: Option<(crate::stats::Phase, Fault, u64)> = None;
     let mut since_restore = 0u64;
     let mut nontrivial = false;
+    let mut micro: Vec<(Input, Fault)> = vec![];
     for (i, op) in sc.ops.iter().enumerate() {
         st.op(op);
         match op {
-            Op::Feed { x, f, .. } => {
-                st.ticks += 1;
-                st.fault(*f);
-                if *f != Fault::Clean {
-                    last_fault = *f;
+            Op::Feed { .. } | Op::Gen { .. } => {
+                micro.clear();
+                match op {
+                    Op::Feed { x, f, .. } => micro.push((*x, *f)),
+                    Op::Gen { g, skip, len, fault, every, .. } => world::expand_gen(g, *skip, *len, *fault, *every, 0, |x, f, _| {
+                        micro.push((*x, f));
+                        true
+                    }),
+                    _ => {}
                 }
-                let (eo, _) = on(Side::Reference, || shadow.feed(spec.mode, x));
-                let (go, used) = on(Side::Subject, || node.feed(spec.mode, x));
-                scale.push(x);
-                for b in go.bits() {
-                    digest = fnv_u64(digest, b);
-                }
-                st.comparisons += 1;
-                if let Some((ph, fb, how)) = restored {
-                    nontrivial = true;
-                    let sb = if since_restore < 2 { since_restore } else if since_restore < window as u64 { 2 } else if since_restore == window as u64 { 3 } else { 4 };
-                    st.situation(kind, &spec.params, ph, how, fb, used, sb);
-                    since_restore += 1;
-                }
-                if !go.same_bits(&eo) {
-                    if let Some(c) = out_rel12(&go, &eo, scale.of(kind)) {
-                        return Some(viol("output-mismatch", kind, i, format!("component {} differs from the shadow {} ticks after the last restore", c, since_restore), eo.hex(), go.hex()));
+                for (x, f) in micro.iter() {
+                    st.ticks += 1;
+                    st.fault(*f);
+                    if *f != Fault::Clean {
+                        last_fault = *f;
                     }
-                    st.bump("within_rel12_but_not_bit_identical");
-                }
-                // (iv) a DataItem that goes through the disk compares equal and field-wise bit-equal
-                if spec.mode == Mode::Item {
-                    if let Some(it) = make_item(x) {
-                        match item_roundtrip(&it) {
-                            Ok(back) => {
-                                st.bump("dataitem_roundtrips");
-                                if back != it || item_bits(&back) != item_bits(&it) {
-                                    return Some(viol("dataitem-mismatch", kind, i, "DataItem changed by serialize/deserialize".into(), vec![format!("{:?}", it)], vec![format!("{:?}", back)]));
+                    let (eo, _) = on(Side::Reference, || shadow.feed(spec.mode, x));
+                    let (go, used) = on(Side::Subject, || node.feed(spec.mode, x));
+                    scale.push(x);
+                    for b in go.bits() {
+                        digest = fnv_u64(digest, b);
+                    }
+                    st.comparisons += 1;
+                    if let Some((ph, fb, how)) = restored {
+                        nontrivial = true;
+                        let sb = if since_restore < 2 { since_restore } else if since_restore < window as u64 { 2 } else if since_restore == window as u64 { 3 } else { 4 };
+                        st.situation(kind, &spec.params, ph, how, fb, used, sb);
+                        since_restore += 1;
+                    }
+                    if !go.same_bits(&eo) {
+                        if let Some(c) = out_rel12(&go, &eo, scale.of(kind)) {
+                            return Some(viol("output-mismatch", kind, i, format!("component {} differs from the shadow {} ticks after the last restore", c, since_restore), eo.hex(), go.hex()));
+                        }
+                        st.bump("within_rel12_but_not_bit_identical");
+                    }
+                    // (iv) a DataItem that goes through the disk compares equal and field-wise bit-equal
+                    if spec.mode == Mode::Item {
+                        if let Some(it) = make_item(x) {
+                            match item_roundtrip(&it) {
+                                Ok(back) => {
+                                    st.bump("dataitem_roundtrips");
+                                    if back != it || item_bits(&back) != item_bits(&it) {
+                                        return Some(viol("dataitem-mismatch", kind, i, "DataItem changed by serialize/deserialize".into(), vec![format!("{:?}", it)], vec![format!("{:?}", back)]));
+                                    }
                                 }
+                                Err(e) => return Some(viol("serde-error", kind, i, format!("DataItem round-trip failed: {}", e), vec![], vec![e])),
                             }
-                            Err(e) => return Some(viol("serde-error", kind, i, format!("DataItem round-trip failed: {}", e), vec![], vec![e])),
                         }
                     }
+                    journal.push(J::Feed(*x, eo));
+                    count += 1;
                 }
-                journal.push(J::Feed(*x, eo));
-                count += 1;
             }
             Op::Reset { .. } => {
                 on(Side::Reference, || shadow.reset());
@@ -205,6 +217,11 @@ pub fn exec(sc: &Scenario, st: &mut Stats) -> Option<Violation> {
                 restored = Some((ph, last_fault, 8 + (*times).min(3) as u64 * 16));
                 since_restore = 0;
             }
+            Op::Fork { .. } => {
+                // the node that will be checkpointed is a clone of the one that lived through the history
+                node = on(Side::Subject, || node.fork());
+                st.bump("node_replaced_by_clone");
+            }
             Op::Format { .. } => {
                 let d = on(Side::Subject, || (node.display(), node.debug().len()));
                 let e = on(Side::Reference, || shadow.display());
@@ -264,7 +281,16 @@ pub fn generate(rng: &mut Rng, tier: Tier) -> Scenario {
     let plan = if fault_free { FaultPlan::none() } else { FaultPlan::swarm(rng, &ALL_FEED_FAULTS, 0.005, 0.4) };
     let mut ops = vec![];
     let segments = rng.range(1, 4);
-    for _ in 0..segments {
+    for seg in 0..segments {
+        // rarely: a very long uptime before the first checkpoint
+        if seg == 0 && rng.chance(0.001) && sp <= 64 {
+            let len = match tier {
+                Tier::Quick => rng.range(66_000, 90_000),
+                Tier::Thorough => rng.range(66_000, 400_000),
+            } as u64;
+            let fault = if rng.chance(0.4) && !fault_free { Some(*rng.pick(&VALUE_FAULTS)) } else { None };
+            ops.push(Op::Gen { n: 0, g: World::random_desc(rng), skip: 0, len, fault, every: if fault.is_some() { rng.range(2, 3000) as u64 } else { 0 }, reset_every: 0 });
+        }
         // history up to the checkpoint, biased to the interesting window phases
         let k1 = match rng.below(8) {
             0 => 0,
@@ -290,6 +316,9 @@ pub fn generate(rng: &mut Rng, tier: Tier) -> Scenario {
             let f = *rng.pick(&VALUE_FAULTS);
             let x = corrupt(rng, f, w.clean());
             ops.push(Op::Feed { n: 0, x, f });
+        }
+        if rng.chance(0.05) {
+            ops.push(Op::Fork { src: 0, dst: 0 });
         }
         if rng.chance(0.3) {
             ops.push(Op::RoundTrip { n: 0, times: rng.range(1, 5) as u32 });
